@@ -95,6 +95,13 @@ def structured_family():
     out.append(("inherited static read through the derived class name", Program([
         Func("report", [], VOID, [Echo(SFld("Plan", "budget"))]),
         Func("main", [], VOID, [Expr(Call("report")), Echo(SFld("Limits", "cap")), Echo(SFld("TightLimits", "floor"))])], [lim, tight, plan])))
+    # 6b. the same with names chosen so that the reading class precedes the declaring base in name order as well (classes are
+    #     initialised in name order; the read must initialise the declaring class on demand)
+    zed = Class("ZedLimits", "", [Field(P("int"), "cap", I(40), static=True), Field(P("int"), "floor", I(2), static=True)], [], [Ctor([], [], default=True)], [])
+    midl = Class("MidLimits", "ZedLimits", [], [], [Ctor([], [Super()])], [])
+    aplan = Class("APlan", "", [Field(P("int"), "budget", Bin("+", SFld("MidLimits", "cap"), SFld("MidLimits", "floor")), static=True)], [], [], [], static=True)
+    out.append(("inherited static read through the derived class name, reader first in name order", Program([
+        Func("main", [], VOID, [Echo(SFld("APlan", "budget")), Echo(SFld("ZedLimits", "cap")), Echo(SFld("MidLimits", "floor"))])], [zed, midl, aplan])))
     # 7. a plain class over two generic levels over a plain base with fields
     dev = Class("Device", "", [Field(P("int"), "id")], [Method("label", [], P("int"), [Ret(Bin("+", Fld(This(), "id"), I(1000)))], virtual=True)],
                 [Ctor([Param(P("int"), "id0")], [Expr(FAsg(This(), "id", Var("id0")))])], [])
